@@ -10,6 +10,9 @@ N_THOROUGH = 50000
 KEEP = ("poll:deadlock", "poll:harness-exc", "poll:thread-died:poller", "poll:thread-died:other", "poll:poller-dead",
         "poll:wrong-outcome", "poll:raise-left-pending", "poll:raise-hit-unshown", "poll:veto-ignored", "poll:cancel-true-not-cancelled")
 
+if hasattr(base, "setup"):
+    setup = base.setup
+
 gen = base.gen
 execute = base.execute
 encode = base.encode
